@@ -44,8 +44,13 @@ def _job(args):
         eng = Engine(repo, schema, units, spec_funcs, spec_consts, unit)
         res = eng.run()
         cfg = TIERS[tier]
+        n_bad = 0
         for ob in res.obligations:
-            discharge(ob, cfg['timeout_ms'], True, cfg['both'])
+            # once a unit is known to be violated, do not spend the full budget on its other obligations
+            tmo = cfg['timeout_ms'] if n_bad == 0 else min(cfg['timeout_ms'], 4000)
+            discharge(ob, tmo, n_bad == 0, cfg['both'])
+            if ob.status == 'refuted':
+                n_bad += 1
             o = {'name': ob.name(), 'label': ob.label, 'kind': ob.kind, 'status': ob.status, 'backend': ob.backend,
                  'time': round(ob.time, 4), 'line': ob.line, 'path': ob.path, 'props': ob.props, 'info': ob.info}
             if ob.status == 'refuted' and ob.model is not None:
